@@ -56,7 +56,7 @@ type bufInfo struct {
 }
 
 func resolveBuf(p *Prog, r *Report, rule string) *bufInfo {
-	b := &bufInfo{typ: p.Named("buffer", "Buffer"), rec: p.Named("buffer", "bufferWriter")}
+	b := &bufInfo{typ: p.Named("buffer", "Buffer"), rec: namedRole(p, "buffer", "bufferWriter")}
 	if b.typ == nil || b.rec == nil {
 		r.Anchor(rule, "buffer.Buffer / bufferWriter", "types not found")
 		return nil
@@ -924,7 +924,7 @@ func c07Bound(p *Prog, r *Report, b *bufInfo, inLoop map[*ssa.BasicBlock]bool) {
 			fmt.Sprintf("counter starts at %d and a retry is allowed while counter <= %d: up to %d invocations (the property allows 11)", init, K, inv))
 	}
 	// context.attempt == number of invocations so far: counter + (1 - init)
-	ctxT := p.Named("buffer", "context")
+	ctxT := namedRole(p, "buffer", "context")
 	if ctxT != nil {
 		for _, st := range FieldStores(fn, ctxT, "attempt") {
 			rf := ToRat(BuildExpr(p, st.Val, nil)).norm()
